@@ -621,3 +621,71 @@ def run_selftest(prop_id: str, prog: Program, jobs: Optional[int] = None) -> Dic
         "rule": "mutants = small edits of the current source that break the property and still compile; "
         "twins = behaviour-preserving rewrites; analysed in memory, never executed",
     }
+
+
+# ---------------------------------------------------------------------------
+# canaries: a positive example per absence rule, evaluated on every run (quick tier included)
+
+# rules that look for a forbidden construct whose count on a healthy tree is zero: without a positive example
+# such a rule would pass vacuously forever if its pattern stopped matching
+CANARY_RULES = (
+    "SOLVER-STATELESS", "MEMO-KEY", "ITERATOR-REUSE", "NO-PRUNED-TRAVERSAL", "COST-TRUTH", "FIELD-COPY-COMPLETE",
+    "EQ-BY-FIELDS", "READONLY-INPUT", "READONLY-GRAPH", "READONLY-DECODE", "IDENTITY-KEYS", "EMPTY-RESULT-GUARD",
+    "RECURSE-FORWARD", "COLOR-SOURCE", "ORDER-PRESERVED", "DISPATCH-KEYS", "COST-PASSTHROUGH", "PRUNE", "SENTINEL",
+    "COPY-BEFORE-MUTATE", "FRESH-ATTACH", "FRESH-STARTS", "ESCAPE-TAINT", "PREORDER-STATE", "TABLE-FRESH-CELLS",
+)
+
+MEMO_CANARY = Variant(
+    "canary-memo-table", USPFS,
+    [("    if root_kind == SyntenyAssignment.LCA:\n        ancestor_synteny = lca_sets[root_object]\n",
+      "    if (root_object, root_species, root_kind) in _SEEN:\n        return _SEEN[(root_object, root_species, root_kind)]\n"
+      "    _SEEN[(root_object, root_species, root_kind)] = sorted(ancestor_synteny or ())\n"
+      "    if root_kind == SyntenyAssignment.LCA:\n        ancestor_synteny = lca_sets[root_object]\n"),
+     ("def _decode_uspfs_table(", "_SEEN = {}\n\n\ndef _decode_uspfs_table(")],
+    ("MEMO-KEY", "SOLVER-STATELESS"),
+)
+VARIANTS.append(MEMO_CANARY)
+
+
+def run_canaries(rule_names: Sequence[str], prog: Program) -> List[str]:
+    """For every absence rule in `rule_names`: the first applicable mutant that names the rule must make it
+    fire. Returns error strings (empty when every canary sings)."""
+    from . import props
+
+    errors: List[str] = []
+    done = set()
+    for rule in rule_names:
+        if rule not in CANARY_RULES or rule in done:
+            continue
+        done.add(rule)
+        sang = False
+        tried = 0
+        for var in VARIANTS:
+            if var.twin or rule not in var.expect:
+                continue
+            mod = next((m for m in prog.modules.values() if m.relpath == var.relpath), None)
+            if mod is None:
+                continue
+            new_src = var.apply(mod.src)
+            if new_src is None:
+                continue
+            try:
+                compile(new_src, var.relpath, "exec")
+            except SyntaxError:
+                continue
+            tried += 1
+            try:
+                res = props.RULES[rule](Program(prog.root, {**prog.overrides, var.relpath: new_src}))
+            except AnalysisError:
+                continue
+            if res.findings:
+                sang = True
+                break
+            if tried >= 3:
+                break
+        if not sang:
+            errors.append(
+                f"CANARY {rule}: no positive example fires "
+                + ("(no mutant of the rule applies to the current source)" if tried == 0 else f"({tried} tried)")
+            )
+    return errors
